@@ -39,7 +39,11 @@ import (
 // context, the identity of every injected error / returned error / panic value, statement
 // kinds and the way a statement fails, pauses of the body in virtual time, a nested
 // (re-entrant) Transact call made by the body, the following transactions of the sequence
-// (optionally a database outage that makes the breaker reject calls).
+// (optionally a database outage that makes the breaker reject calls; optionally the outage goes
+// on as a burst of further refused calls at <= 1 ms spacing and is followed by a RECOVERY phase:
+// the database is healthy again and up to 60 fault-free transactions run one after another with
+// think times between them that straddle the breaker's forced-pass interval and its window, so
+// that calls are admitted by a breaker that is still throttling).
 //
 // Pool mode (1 run out of 5, pool_test.go): 2-3 client tasks run 1-2 transactions each on
 // the SAME SqlConn with pauses inside the bodies and optionally a canceller task / a
@@ -231,6 +235,28 @@ var connTable = [...]int{ckFromDB, ckFromDB, ckFromDB, ckFromDB, ckFromDB, ckFro
 // number of transactions run one after another on the SqlConn
 var seqTable = [...]int{1, 1, 1, 1, 1, 1, 1, 1, 1, 1, 2, 2, 3, 4, 7, 12}
 
+// outage burst and recovery phase of a sequence (only drawn when the sequence has an outage).
+// burstTable: further calls refused by the database, appended to the outage at 0 / 1 ms spacing.
+var burstTable = [...]int{0, 0, 8, 20, 40}
+
+// recTable: number of transactions run after the outage has ended (healthy database).
+var recTable = [...]int{0, 0, 4, 12, 30, 60}
+
+// thinkTable: think time of the client before a transaction of the recovery phase, ascending.  A
+// run draws an upper index first (0: no think time at all) and every think time below it, so runs
+// with only short think times (the breaker keeps throttling) and runs with long ones both occur.
+var thinkTable = [...]time.Duration{0, time.Millisecond, 250 * time.Millisecond,
+	time.Second - 1, time.Second, time.Second + 1, 1500 * time.Millisecond,
+	10*time.Second - 1, 10 * time.Second, 10*time.Second + 1, 12 * time.Second}
+
+const (
+	phSequence = iota // the sampled sequence (including its outage tail)
+	phBurst           // further refused calls of the outage
+	phRecovery        // healthy transactions after the outage
+)
+
+var phaseNames = [...]string{"sequence", "outage-burst", "recovery"}
+
 type customPanic struct{ code int }
 
 // bizError: an error type of the application; a nil *bizError stored in an error is a non-nil error.
@@ -358,6 +384,9 @@ type world struct {
 	pool bool // pool mode: other tasks use the SqlConn at the same time
 
 	depth         int  // 0 = called by the client, 1 = called from inside the body of another world
+	phase         int           // phSequence / phBurst / phRecovery
+	think         time.Duration // think time of the client before this call (burst and recovery phases)
+	rejected      bool          // set by check: the SqlConn's breaker rejected the call outright
 	sessionNested bool // called on a SqlConn made of the enclosing transaction's session: cannot begin
 	openFails     bool // the SqlConn cannot obtain its pool (unknown datasource) or the pool was closed: cannot begin
 	parentSession sqlx.Session
@@ -954,6 +983,15 @@ func body(r *simrt.Run, tier string) {
 	if nSeq >= 6 && t.Bool() {
 		outageFrom = t.Range(1, 3)
 	}
+	// the outage may go on as a burst of further refused calls and be followed by a recovery phase
+	burst, nRec, thinkMax := 0, 0, 0
+	if outageFrom >= 0 {
+		burst = burstTable[t.Intn(len(burstTable))]
+		nRec = recTable[t.Intn(len(recTable))]
+		if nRec > 0 {
+			thinkMax = t.Intn(len(thinkTable))
+		}
+	}
 	closeAt := -1
 	if connKind == ckClosedDB {
 		closeAt = t.Intn(nSeq)
@@ -967,7 +1005,30 @@ func body(r *simrt.Run, tier string) {
 		}
 		seq = append(seq, e.drawWorld(tpi, 0, outage))
 	}
+	// burst: the database goes on refusing every BEGIN, the client calls again at once or after 1 ms
+	for i := 0; i < burst; i++ {
+		w := e.drawWorld(tuple{api: t.Intn(nAPI), txf: txfBegin}, 0, true)
+		w.phase, w.think = phBurst, time.Duration(t.Intn(2))*time.Millisecond
+		seq = append(seq, w)
+	}
+	// recovery: the database is healthy again (no tx-layer fault, no statement fault); bodies of 0..2
+	// statements that return nil (mostly), return an error of their own or panic
+	for i := 0; i < nRec; i++ {
+		tpi := tuple{api: t.Intn(nAPI), txf: txfNone, n: t.Intn(3)}
+		switch t.Intn(5) {
+		case 3:
+			tpi.end, tpi.pos = endErr, t.Intn(tpi.n+1)
+		case 4:
+			tpi.end, tpi.pos = endPanic, t.Intn(tpi.n+1)
+		}
+		w := e.drawWorld(tpi, 0, false)
+		w.phase, w.think = phRecovery, thinkTable[t.Intn(thinkMax+1)]
+		seq = append(seq, w)
+	}
 	for i, w := range seq {
+		if w.nested != nil {
+			w.nested.phase = w.phase
+		}
 		if connKind == ckUnknownDSN || (closeAt >= 0 && i >= closeAt) {
 			w.openFails = true
 			if w.nested != nil {
@@ -982,7 +1043,7 @@ func body(r *simrt.Run, tier string) {
 	defer cleanup()
 
 	if r.Tracing() {
-		logf(r, "conn=%s acceptable-modes=%v sequence of %d (outage from %d, db closed before %d)", connNames[connKind], accModes, nSeq, outageFrom, closeAt)
+		logf(r, "conn=%s acceptable-modes=%v sequence of %d (outage from %d, db closed before %d), outage burst of %d, recovery of %d (think times up to %v)", connNames[connKind], accModes, nSeq, outageFrom, closeAt, burst, nRec, thinkTable[thinkMax])
 		for _, w := range e.worlds {
 			logf(r, "plan %s", w.describe())
 		}
@@ -999,6 +1060,12 @@ func body(r *simrt.Run, tier string) {
 		}
 		if i > 0 && failedBefore {
 			r.Probe("seq-transaction-after-failed-one")
+		}
+		if w.think > 0 {
+			r.Sleep(w.think)
+		}
+		if r.Tracing() && w.phase != phSequence {
+			logf(r, "t=%v %s: call c%d after a think time of %v", time.Since(e.start), phaseNames[w.phase], w.id, w.think)
 		}
 		w.transact(context.Background())
 		if w.ret != nil || w.didEscape {
@@ -1057,6 +1124,13 @@ func body(r *simrt.Run, tier string) {
 	if outageFrom >= 0 {
 		r.Probe("seq-outage")
 	}
+	if burst > 0 {
+		r.Probe(fmt.Sprintf("seq-outage-burst-%d", burst))
+	}
+	if nRec > 0 {
+		r.Probe(fmt.Sprintf("seq-recovery-%d", nRec))
+		e.recoveryCoverage(seq)
+	}
 	e.coverage()
 	retStr := "<nil>"
 	if w0.ret != nil {
@@ -1065,6 +1139,10 @@ func body(r *simrt.Run, tier string) {
 	var descr []string
 	for _, w := range e.worlds {
 		if w.called && w != w0 {
+			if len(descr) == 16 {
+				descr = append(descr, fmt.Sprintf("... (%d calls in all: outage burst of %d, recovery of %d)", len(e.worlds), burst, nRec))
+				break
+			}
 			descr = append(descr, w.summary())
 		}
 	}
@@ -1085,6 +1163,53 @@ func (w *world) summary() string {
 		}
 	}
 	return fmt.Sprintf("c%d%s %s %s ctx=%s -> body %s, returned %s", w.id, kind, apiNames[w.tp.api], w.tp.name(), ctxNames[w.ctxKind], w.outcome, retStr)
+}
+
+// recoveryCoverage emits the probes of the recovery phase: which think times were used, what the
+// breaker did to the healthy calls (rejected outright / admitted), and whether a call was admitted
+// while the breaker was demonstrably still throttling (an earlier AND a later call of the phase
+// were rejected with less than the breaker window between them).
+func (e *env) recoveryCoverage(seq []*world) {
+	r := e.r
+	var rec []*world
+	for _, w := range seq {
+		if w.phase == phRecovery && w.called {
+			rec = append(rec, w)
+		}
+	}
+	lastRej := -1
+	for i, w := range rec {
+		r.Probe("recovery-think-" + w.think.String())
+		if w.rejected {
+			r.Probe("recovery-call-rejected-by-breaker")
+			if w.think > time.Second {
+				r.Probe("recovery-call-rejected-after-think-beyond-1s")
+			}
+			lastRej = i
+			continue
+		}
+		if w.bodyRuns == 0 {
+			continue // context already ended, pool closed, ...
+		}
+		r.Probe("recovery-transaction-" + w.outcome)
+		if lastRej < 0 {
+			continue
+		}
+		r.Probe("recovery-call-admitted-after-rejection")
+		if w.think > time.Second && lastRej == i-1 {
+			r.Probe("recovery-call-admitted-after-think-beyond-1s-following-rejection")
+		}
+		var gap time.Duration
+		for j := i + 1; j < len(rec); j++ {
+			gap += rec[j].think + rec[j].sleepTotal()
+			if rec[j].rejected {
+				if gap+w.sleepTotal() < 10*time.Second {
+					r.Probe("recovery-call-admitted-between-rejections")
+				}
+				break
+			}
+		}
+	}
 }
 
 // coverage emits the probes of the sampled dimensions for every transaction that was called.
@@ -1258,6 +1383,9 @@ func (w *world) check(fullLog []dbEvent) {
 		if w.depth > 0 {
 			who += "called from inside another transaction's body, "
 		}
+		if w.phase != phSequence {
+			who += fmt.Sprintf("phase %s (think time %v before the call), ", phaseNames[w.phase], w.think)
+		}
 		return fmt.Sprintf("[%sconn %s, api %s, tuple %s, ctx %s] driver log: %s; body runs=%d outcome=%s; returned error: %v",
 			who, connNames[w.env.connKind], apiNames[w.tp.api], w.tp.name(), ctxNames[w.ctxKind], logString(fullLog), w.bodyRuns, w.outcome, ret)
 	}
@@ -1294,6 +1422,7 @@ func (w *world) check(fullLog []dbEvent) {
 			case ret != nil && errors.Is(ret, breaker.ErrServiceUnavailable):
 				// the SqlConn's breaker rejected the call
 				r.Probe("breaker-rejected")
+				w.rejected = true
 				return
 			case w.ctxAPI() && ret != nil && w.ctxErrAtReturn != nil && errors.Is(ret, w.ctxErrAtReturn):
 				// refusing to begin on a context that has ended (nothing run, the context's error returned)
@@ -1437,7 +1566,7 @@ func config(t *simrt.Tape, tier string) simrt.Config {
 		nextMode = modePool
 		sw = []int{50, 150, 400}[t.Intn(3)]
 	}
-	return simrt.Config{SwitchPerMille: sw, StallPerMille: st, StallMax: 2 * time.Second, MaxSteps: 30000, MaxVirtual: 48 * time.Hour}
+	return simrt.Config{SwitchPerMille: sw, StallPerMille: st, StallMax: 2 * time.Second, MaxSteps: 100000, MaxVirtual: 48 * time.Hour}
 }
 
 func TestSim(t *testing.T) {
